@@ -217,6 +217,14 @@ class VttContext:
       self._paragraphs.pop()
       self._captions_counter -= 1
 
+    elif (
+        self._paragraphs[-1].get_end() is not None and
+        self._paragraphs[-1].get_end().to_seconds() <= self._paragraphs[-1].get_begin().to_seconds()
+      ):
+      LOGGER.warning("Removing cue shorter than the WebVTT time resolution.")
+      self._paragraphs.pop()
+      self._captions_counter -= 1
+
   def process_div(self, region: ISD.Region, element: model.Div, begin: Fraction, end: Optional[Fraction]):
     """Process div element, which can contain p or nested div elements"""
 
